@@ -119,3 +119,15 @@ VARIANTS += [
       "            * n_cities)", "fire", "D5.3",
       "seed C05-multiplier-scales-only-n-cities"),
 ]
+
+VARIANTS += [
+    V("closing-edge-transposed", "moptipyapps/tsp/tour_length.py",
+      "    result: int = 0\n    last: int = x[-1]\n    for cur in x:\n"
+      "        result = result + instance[last, cur]\n"
+      "        last = cur\n    return result",
+      "    first: int = x[0]\n    result: int = 0\n    last: int = first\n"
+      "    for cur in x[1:]:\n"
+      "        result = result + instance[last, cur]\n"
+      "        last = cur\n    return result + instance[first, last]",
+      "fire", "D5.1", "seed C05-closing-edge-transposed"),
+]
